@@ -9,6 +9,7 @@ import (
 	"os"
 	"path/filepath"
 	"strings"
+	"time"
 
 	"github.com/allegro/bigcache/v3"
 	hugecache "github.com/rpcpool/yellowstone-faithful/huge-cache"
@@ -98,7 +99,7 @@ func (e *vEpoch) buildGsfa() error {
 
 type vkConfigOpts struct {
 	Name      string
-	CarURI    string // default: the local CAR
+	CarURI    string            // default: the local CAR
 	Overrides map[string]string // index role -> path
 	NoGsfa    bool
 }
@@ -187,29 +188,81 @@ func vkNewMulti(conc int, eps ...*Epoch) *MultiEpoch {
 	return m
 }
 
+// vkRequestWatchdog, when non-zero, bounds every request driven through vkHTTP / vkWatch: the call runs in
+// a goroutine of its own and a call that has not returned after this long is issued a second time; only
+// when the second one does not return either is it reported (vkNoAnswer). The bound is generous on purpose
+// (requests take milliseconds): it turns "the server never answers" from a silent worker timeout into a
+// finding and is never used as a latency oracle. Not for use under the cooperative scheduler.
+var vkRequestWatchdog time.Duration
+
+// vkNoAnswer is what vkHTTP returns as "panicked" when neither of two attempts returned.
+type vkNoAnswer struct{ After time.Duration }
+
+func (n vkNoAnswer) String() string {
+	return fmt.Sprintf("no answer: the call did not return within %s, twice in a row (it is still running)", n.After)
+}
+
+// vkWatch runs f under the watchdog: true if one of (at most) two attempts returned.
+func vkWatch(f func()) bool {
+	if vkRequestWatchdog <= 0 {
+		f()
+		return true
+	}
+	for attempt := 0; attempt < 2; attempt++ {
+		done := make(chan struct{})
+		go func() { defer close(done); f() }()
+		tm := time.NewTimer(vkRequestWatchdog)
+		select {
+		case <-done:
+			tm.Stop()
+			return true
+		case <-tm.C:
+		}
+	}
+	return false
+}
+
 // vkHTTP drives one HTTP request through the real handler in memory.
 func vkHTTP(h func(*fasthttp.RequestCtx), method, uri string, body []byte, contentLen int) (status int, resp []byte, panicked interface{}) {
-	var req fasthttp.Request
-	req.Header.SetMethod(method)
-	req.SetRequestURI(uri)
-	req.Header.SetContentType("application/json")
-	if body != nil {
-		req.SetBody(body)
+	type answer struct {
+		status   int
+		resp     []byte
+		panicked interface{}
 	}
-	if contentLen >= 0 {
-		req.Header.SetContentLength(contentLen)
-	}
-	var ctx fasthttp.RequestCtx
-	ctx.Init(&req, nil, nil)
-	func() {
-		defer func() {
-			if r := recover(); r != nil {
-				panicked = r
-			}
+	once := func() (a answer) {
+		var req fasthttp.Request
+		req.Header.SetMethod(method)
+		req.SetRequestURI(uri)
+		req.Header.SetContentType("application/json")
+		if body != nil {
+			req.SetBody(body)
+		}
+		if contentLen >= 0 {
+			req.Header.SetContentLength(contentLen)
+		}
+		var ctx fasthttp.RequestCtx
+		ctx.Init(&req, nil, nil)
+		func() {
+			defer func() {
+				if r := recover(); r != nil {
+					a.panicked = r
+				}
+			}()
+			h(&ctx)
 		}()
-		h(&ctx)
-	}()
-	return ctx.Response.StatusCode(), append([]byte{}, ctx.Response.Body()...), panicked
+		a.status, a.resp = ctx.Response.StatusCode(), append([]byte{}, ctx.Response.Body()...)
+		return a
+	}
+	if vkRequestWatchdog <= 0 {
+		a := once()
+		return a.status, a.resp, a.panicked
+	}
+	ch := make(chan answer, 2)
+	if !vkWatch(func() { ch <- once() }) {
+		return -1, nil, vkNoAnswer{vkRequestWatchdog}
+	}
+	a := <-ch
+	return a.status, a.resp, a.panicked
 }
 
 func vkRPC(h func(*fasthttp.RequestCtx), body string) (int, []byte, interface{}) {
